@@ -96,3 +96,87 @@ def simple_doc(ncurves=3, nrows=4, vers=2.0, wrap="NO", null=-999.25, params=(("
     else:
         lines += data_section(rows)
     return lines
+
+
+# ---------------------------------------------------------------------------------------------------------
+# abstract documents
+# ---------------------------------------------------------------------------------------------------------
+WELL_ORDER_12_VALUE_FIRST = ("STRT", "STOP", "STEP", "NULL", "strt", "stop", "step", "null")
+
+
+def render_items(items, kind, vers, pads=None):
+    out = []
+    for k, it in enumerate(items):
+        m, u, v, d = it[:4]
+        p = (pads[k] if pads else None) or (0, 3, 1, 1)
+        if kind == "W" and vers == 1.2 and m not in WELL_ORDER_12_VALUE_FIRST:
+            out.append(hline(m, u, d, v, p))
+        else:
+            out.append(hline(m, u, v, d, p))
+    return out
+
+
+def render_doc(doc):
+    """doc -> list of physical lines.  Sections in doc order; data rows joined by doc['sep'] (default blank)."""
+    lines = []
+    vers = doc.get("vers", 2.0)
+    for sec in doc["sections"]:
+        lines.append(sec["title"])
+        k = sec["kind"]
+        if k in ("V", "W", "C", "P", "X"):
+            lines += render_items(sec["items"], k, vers, sec.get("pads"))
+        elif k in ("O", "T"):
+            lines += list(sec["text"])
+        elif k == "A":
+            sep = doc.get("sep", " ")
+            lead = doc.get("lead", " ")
+            if doc.get("wrap"):
+                per = doc.get("per_line", 5)
+                for r in sec["rows"]:
+                    lines.append(lead + r[0])
+                    rest = r[1:]
+                    for i in range(0, len(rest), per):
+                        lines.append(lead + sep.join(rest[i:i + per]))
+            else:
+                for r in sec["rows"]:
+                    lines.append(lead + sep.join(r))
+    return lines
+
+
+def std_doc(g, ncurves=None, nrows=None, vers=None, wrap=False, null="-999.25", with_p=True, with_o=True,
+            custom=0, cell=None, nonascii=False):
+    """A random but entirely conformant V,W,C,[P],[O],[custom...],A document (abstract form)."""
+    ncurves = ncurves if ncurves is not None else g.randint(1, 5)
+    nrows = nrows if nrows is not None else g.randint(1, 6)
+    vers = vers if vers is not None else g.choice([1.2, 2.0])
+    step = 0.5
+    comp = g.choice(["ACME OIL", "Big Rig Ltd", "ANY OIL COMPANY INC"])
+    if nonascii:
+        comp = g.choice(["Åsgard Ølje", "Société Générale", "Müller & Söhne"])
+    v_items = [["VERS", "", "%.1f" % vers, "CWLS LOG ASCII STANDARD - VERSION %.1f" % vers],
+               ["WRAP", "", "YES" if wrap else "NO", "Multiple lines per depth step" if wrap else "One line per depth step"]]
+    w_items = [["STRT", "M", "%.4f" % 0.0, "START DEPTH"], ["STOP", "M", "%.4f" % ((nrows - 1) * step), "STOP DEPTH"],
+               ["STEP", "M", "%.4f" % step, "STEP"], ["NULL", "", null, "NULL VALUE"],
+               ["COMP", "", comp, "COMPANY"], ["WELL", "", g.choice(["W-1", "ANY ET AL 12-34"]), "WELL"],
+               ["FLD", "", g.choice(["WILDCAT", "EDAM"]), "FIELD"]]
+    c_items = [["DEPT", "M", "", "1 DEPTH"]] + [["C%d" % j, g.choice(["US/M", "K/M3", "OHMM", "V/V", ""]),
+                                                 g.choice(["", "60 520 32 00"]), "%d curve %d" % (j + 1, j)]
+                                                for j in range(1, ncurves)]
+    p_items = [["BHT", "DEGC", "35.5", "BOTTOM HOLE TEMPERATURE"], ["MUD", "", "GEL CHEM", "MUD TYPE"],
+               ["BS", "MM", "200", "BIT SIZE"]][:g.randint(0, 3)]
+    if cell is None:
+        def cell(i, j):
+            return "%.4f" % (i * step if j == 0 else (i * 10 + j) * 1.25)
+    rows = [[cell(i, j) for j in range(ncurves)] for i in range(nrows)]
+    secs = [{"kind": "V", "title": "~Version Information", "items": v_items},
+            {"kind": "W", "title": "~Well Information", "items": w_items},
+            {"kind": "C", "title": "~Curve Information", "items": c_items}]
+    if with_p:
+        secs.append({"kind": "P", "title": "~Parameter Information", "items": p_items})
+    if with_o:
+        secs.append({"kind": "O", "title": "~Other", "text": ["Note: some free text", "second line of it"][:g.randint(0, 2)]})
+    for c in range(custom):
+        secs.append({"kind": "X", "title": "~%s custom %d" % ("XYZ"[c % 3], c),
+                     "items": [["K%d" % c, "", "%d" % (c + 1), "custom item"]]})
+    secs.append({"kind": "A", "title": "~ASCII", "rows": rows})
+    return {"vers": vers, "wrap": wrap, "sections": secs, "null": null}
